@@ -198,6 +198,17 @@ func VerifC09TwoRows() {
 	xid, branchID := vrt.String("xid", 2), int64(1+vrt.Choice("branch", 2))
 	b1, a1 := uCells(s, "r1.before", 10), uCells(s, "r1.after", 10)
 	b2, a2 := uCells(s, "r2.before", 20), uCells(s, "r2.after", 20)
+	k1, k2 := int64(10), int64(20)
+	if len(s.pk) == 2 && vrt.Bool("key.texts.collide") {
+		// (1,11) and (11,1): different rows whose key values, written one after the other, read the same
+		k1, k2 = 1, 11
+		for _, c := range [][]driver.Value{b1, a1} {
+			c[s.pk[0]], c[s.pk[1]] = int64(1), int64(11)
+		}
+		for _, c := range [][]driver.Value{b2, a2} {
+			c[s.pk[0]], c[s.pk[1]] = int64(11), int64(1)
+		}
+	}
 	vrt.Assume(!uSameCells(b1, a1) && !uSameCells(b2, a2))
 	log := undo.SQLUndoLog{SQLType: types.SQLTypeUpdate, TableName: s.table,
 		BeforeImage: uImage(s, types.SQLTypeUpdate, [][]driver.Value{b1, b2}),
@@ -205,6 +216,11 @@ func VerifC09TwoRows() {
 	w := uSetup(s, &undo.BranchUndoLog{Xid: xid, BranchID: uint64(branchID), Logs: []undo.SQLUndoLog{log}}, xid, branchID)
 	w.addUndoLog()
 	c1, c2 := uCells(s, "r1.current", 10), uCells(s, "r2.current", 20)
+	if k1 != 10 {
+		c1[s.pk[0]], c1[s.pk[1]] = int64(1), int64(11)
+		c2[s.pk[0]], c2[s.pk[1]] = int64(11), int64(1)
+	}
+	_ = k2
 	w.d.rows = append(w.d.rows, uRow{cells: append([]driver.Value(nil), c1...), present: true}, uRow{cells: append([]driver.Value(nil), c2...), present: true})
 
 	allAfter := uSameCells(c1, a1) && uSameCells(c2, a2)
